@@ -11,6 +11,14 @@ TRUST = ("TLC 1.8 + SANY; Num.java (IEEE double arithmetic behind module Num); C
 
 # pid -> (text, note, technique, design_ref)
 CHECKS = {
+    "C03": ("TLC explores Adwin.tla (window as the sequence of retained inputs + buckets-per-row layout; compress, scheduled shrink by "
+            "epsilon-cut at bucket boundaries) for ALL 0/10 input sequences to depth 11/14 over 144 configurations (max_buckets 1-2, "
+            "both bounds): layout, grow-or-cut, no-cut-left, recs = retained window, lifecycle refinement. Conformance: all 2^9/2^12 "
+            "sequences and long real-valued shifting streams (max_buckets=1 included, resets, refused calls, all containers) run on the real "
+            "ADWIN, and indicator streams on ADWINAccuracy with non-default parameters; after every update TLC checks mean(), variance() "
+            "against the mean / population variance of the specification's window, state, recs, counters. Sabotaged copies must be rejected.",
+            TRUST + "_window_size is read optionally.",
+            "TLA+ spec + TLC model checking + TLC trace validation of recorded executions", "5/C03"),
     "C04": ("TLC explores PageHinkley.tla and Cusum.tla exhaustively (all sequences over a 4-value alphabet to depth 7/9, "
             "12+24 configurations; burn-in, direction, rule and extremes invariants; refinement of Lifecycle; a twin restarted "
             "after every drift). Conformance: every sequence of length 5/7 over that alphabet and long level-shifting streams are run "
